@@ -292,10 +292,12 @@ inductive Event where
 
 def live (s : State) : Bool := s.failed.isNone && !s.finished
 
-/-- `step V S s ev = none`: the event is not enabled in `s` -/
+/-- `step V S s ev = none`: the event is not enabled in `s`.  Every event except `recv` needs a live run. -/
 def step (V : Variant) (S : Spec) (s : State) : Event → Option State
   | .recv f =>
-    if live s ∧ S.fuzzer f.sender = false then
+    -- the reader threads append whenever data comes in — also after the run has failed or finished (e.g. while
+    -- the error message is being put together); a dead run merely does not react to it any more
+    if S.fuzzer f.sender = false then
       some { s with buffer := s.buffer ++ [f], recvd := s.recvd ++ [f] }
     else none
   | .fuzzerTurn cand =>
